@@ -27,7 +27,7 @@ PRIOS = ["QUERY", "INTERACTIVE", "BATCH_PIPELINE"]
 FIELDS = ['pipeline_id', 'arrival_seconds', 'priority', 'operator_id', 'parents', 'baseline_cpu_seconds', 'cpu_scaling',
           'memory_gb', 'storage_read_gb']
 RULES = ["first_no_priority", "first_no_arrival", "later_priority", "later_arrival", "unknown_priority", "unknown_law",
-         "undefined_parent"]
+         "undefined_parent", "forward_parent"]
 
 
 def plan(tier):
@@ -274,6 +274,38 @@ def run_case(spec):
             target = (pi * 7 + oi) % len(rows)
             extra = ["op999", "nope", "o1x"][oi % 3]
             rows[target]["parents"] = extra if not rows[target]["parents"] or oi % 2 else rows[target]["parents"] + ";" + extra
+        elif rule == "forward_parent":
+            # a parent that is defined only by a later row of the same pipeline (or the row itself): not yet defined where it
+            # is used.  Refusing the file is fine, and so is loading it with that edge; loading it WITHOUT the edge is not.
+            cands = [k for k in range(len(rows)) if k + 1 < len(rows) and rows[k + 1]["pipeline_id"] == rows[k]["pipeline_id"]]
+            if cands:
+                target = cands[pi % len(cands)]
+                later = rows[target + 1]["operator_id"] if oi % 3 else rows[target]["operator_id"]
+                n_before = len([x for x in rows[target]["parents"].split(";") if x.strip()])
+                rows[target]["parents"] = (rows[target]["parents"] + ";" + later) if rows[target]["parents"].strip() else later
+                buf = io.StringIO()
+                w = csv.DictWriter(buf, fieldnames=FIELDS)
+                w.writeheader()
+                w.writerows(rows)
+                out.label("malformed")
+                out.label("rule_" + rule)
+                out.nontrivial = True
+                try:
+                    got = read_all(buf.getvalue())
+                except Exception:
+                    return out
+                pid = rows[target]["pipeline_id"]
+                pidx = [r["pipeline_id"] for k, r in enumerate(rows) if r["priority"]].index(pid) if pid in [r["pipeline_id"] for r in rows if r["priority"]] else None
+                oidx = len([k for k in range(target) if rows[k]["pipeline_id"] == pid])
+                if pidx is not None and pidx < len(got):
+                    ops_ = list(got[pidx].pipeline.runtime_status().operator_states.keys())
+                    byrow = [o for o in got[pidx].pipeline.values.node_lookup.values()]
+                    nparents = sorted(len(o.parents) for o in byrow)
+                    want = sorted([len([x for x in r["parents"].split(";") if x.strip()]) for r in rows if r["pipeline_id"] == pid])
+                    if nparents != want:
+                        P("C14:malformed-file-loaded", f"row {target} of {pid} names the not yet defined operator {later!r} as a parent; the file was loaded, "
+                          f"but the operators have {nparents} parents instead of the {want} written in the file (an edge was dropped)")
+                return out
         if target is None:
             out.skipped = "rule_not_applicable"
             return out
